@@ -2,7 +2,7 @@ T = lambda q, t: {"quick": q, "thorough": t}
 
 SPEC = dict(
     level="exploration",
-    technique="differential runtime monitoring: paired searches in child processes with / without generated embedding files, "
+    technique="differential runtime monitoring: paired searches in child processes with / without generated embedding files, ; thorough adds a coverage-guided go test -fuzz workload (FuzzEmbeddingFiles) with the same oracles"
               "memory-capped child per hostile file with peak-RSS accounting, algebraic oracle on generated vector pairs",
     level_text="The three parts of the statement are decided on generated inputs only. (1) CosineSimilarity on tens of thousands of finite "
                "float32 pairs (tiny, denormal, huge, zero, equal, scaled, mismatched, empty). (2) Every byte-offset truncation of a small "
@@ -18,7 +18,7 @@ SPEC = dict(
         dict(name="embed-cosine", shards=T(16, 16), timeout=T(300, 1500)),
         dict(name="embed-files", shards=T(16, 16), timeout=T(600, 3000)),
         dict(name="embed-search", shards=T(16, 16), timeout=T(600, 3000)),
-    ],
+             dict(name="gofuzz-FuzzEmbeddingFiles", kind="gofuzz", target="FuzzEmbeddingFiles", fuzztime=T(0, "90s"))],
     rule="embed-cosine: one evaluation = one generated pair (a,b) with CosineSimilarity(a,b), (b,a), (a,a), (b,b); clauses cosine-symmetry "
          "(bit-identical or within 1e-12), cosine-range ([-1-1e-9, 1+1e-9], NaN counts as outside), cosine-zero (exactly 0 for empty / all-zero "
          "/ length-mismatched), cosine-self (1 within 1e-6 for a non-zero vector with itself; definitional for a cosine). "
